@@ -9,7 +9,9 @@
       - [Hdiff]  the diff oracle has the round trip on clean texts (proved for diff.py's create_diff over ANY matcher
                  with the two matcher contracts: [real_diff_roundtrip] below) and [Hnil] diff x x = "";
       - [HT]     transformers do not introduce exotic line boundaries;
-      - [HW]     the manifest writers' (diff, new content) has the round trip - NOT proved anywhere (the writers are
+      - [HW]     the manifest writers' (diff, new content) has the round trip - a premise HERE (the writers are oracles of Run.v); it is PROVED for the requirements.txt and
+        setup.cfg writers of Model/Manifest.v inside their guard (Properties/C14.v: C14_writer_diff_roundtrip) and discharged in
+        Properties/C03.v: C03_run_diffs_compose_manifest; for pyproject.toml / setup.py it stays unproved (the writers are
                  oracles of Run.v; it is false on /repo for the classes kf_manifest_crlf, kf_pyproject_phantom_line,
                  kf_setupcfg_no_final_newline) - observed end to end only;
       - a real run (dry_run = false), `if not changes: return None` in every pipeline, distinct codemod ids. *)
